@@ -34,7 +34,14 @@ type upFile struct {
 }
 
 func (f *upFile) Name() string { return f.name }
-func (f *upFile) Close() error { f.closes++; return nil }
+func (f *upFile) Close() error {
+	f.closes++
+	// closing may fail (a flush to a remote file system, a pipe whose peer is gone): 0 = fine, 1 = error
+	if !f.noFault && f.closes == 1 && verifrt.Choose("source.Close:"+f.name, 2) == 1 {
+		return errSource
+	}
+	return nil
+}
 func (f *upFile) Read(p []byte) (int, error) {
 	f.reads++
 	if f.failed {
@@ -213,12 +220,14 @@ type e3Scenario struct {
 	Reuse      bool
 	NoSrcFault bool
 	Twin       bool // two overlapping calls on one Runtime
+	OneField   bool // all files under one form field name
 }
 
 func e3Scenarios() []e3Scenario {
 	return []e3Scenario{
 		{Name: "multipart-1-file", Files: 1},
 		{Name: "multipart-fields+2-files", Fields: true, Files: 2},
+		{Name: "multipart-3-files-one-field", Files: 3, OneField: true},
 		{Name: "multipart-typed-file-reuse", Files: 1, Typed: true, Reuse: true},
 		{Name: "multipart-fields-only", Fields: true},
 		{Name: "multipart-auth-error", Fields: true, Files: 1, Fault: "auth", NoSrcFault: true},
@@ -327,7 +336,19 @@ func (w *e3World) launch(rt *client.Runtime, name string, own *http.Client) {
 				if f.typed {
 					nf = typedFile{f}
 				}
+				if sc.OneField {
+					continue
+				}
 				if err := req.SetFileParam(fmt.Sprintf("file%d", i+1), nf); err != nil {
+					return err
+				}
+			}
+			if sc.OneField {
+				var all []runtime.NamedReadCloser
+				for _, f := range w.files {
+					all = append(all, f)
+				}
+				if err := req.SetFileParam("files", all...); err != nil {
 					return err
 				}
 			}
